@@ -196,6 +196,14 @@ func (s *generateState) generateType(t schema.Type, selections []ast.Selection, 
 							break
 						}
 					}
+					if union, ok := s.schema.NamedTypes()[typeCond].(*schema.UnionType); ok {
+						for _, member := range union.MemberTypes {
+							if member.Name == tName {
+								isKnown = true
+								break
+							}
+						}
+					}
 				}
 				if isKnown {
 					for _, field := range fields {
@@ -212,6 +220,10 @@ func (s *generateState) generateType(t schema.Type, selections []ast.Selection, 
 				switch t := typeCondType.(type) {
 				case *schema.InterfaceType:
 					for _, t := range s.schema.InterfaceImplementations(t.Name) {
+						okTypes = append(okTypes, t.Name)
+					}
+				case *schema.UnionType:
+					for _, t := range t.MemberTypes {
 						okTypes = append(okTypes, t.Name)
 					}
 				case *schema.ObjectType:
